@@ -75,6 +75,12 @@ def _select(func, selector):
                     raise Untranslatable(f"{func.name}: slice bound of {arg} missing")
                 return e
         raise Untranslatable(f"{func.name}: `{arg} = np.s_[lo:hi]` not found")
+    if kind == "comp-elt":
+        for node in ast.walk(func):
+            if (isinstance(node, ast.Assign) and len(node.targets) == 1 and isinstance(node.targets[0], ast.Name)
+                    and node.targets[0].id == arg and isinstance(node.value, ast.ListComp)):
+                return node.value.elt
+        raise Untranslatable(f"{func.name}: `{arg} = [e for ...]` not found")
     if kind == "assign":
         for node in ast.walk(func):
             if (isinstance(node, ast.Assign) and len(node.targets) == 1 and isinstance(node.targets[0], ast.Name)
@@ -158,6 +164,8 @@ class Tr:
                 return f"({fname} {self.tr(n.args[0])} {self.tr(n.args[1])})"
             if fname in ("int", "uint64", "int64") and len(n.args) == 1 and not n.keywords:
                 return self.tr(n.args[0])
+            if fname == "ceil_div" and len(n.args) == 2 and not n.keywords and self.ty == "Int":
+                return f"(ceilDiv {self.tr(n.args[0])} {self.tr(n.args[1])})"     # the translated utils.ceil_div
             raise Untranslatable(f"call of {fname}")
         raise Untranslatable(f"expression {type(n).__name__}")
 
@@ -195,6 +203,18 @@ SPECS = [
          ty="Int", result="val"),
     dict(name="volUpperX", file="volume_reader.py", func="volume_to_precomputed", select="slice-upper:x_slicing",
          ty="Int", result="val"),
+    dict(name="cvtLowerX", file="scripts/convert_chunks.py", func="convert_chunks_for_scale", select="assign:xmin",
+         ty="Int", result="val", noinline=True),
+    dict(name="cvtUpperX", file="scripts/convert_chunks.py", func="convert_chunks_for_scale", select="assign:xmax",
+         ty="Int", result="val", noinline=True),
+    dict(name="cvtUpperZ", file="scripts/convert_chunks.py", func="convert_chunks_for_scale", select="assign:zmax",
+         ty="Int", result="val", noinline=True),
+    dict(name="pyrHalfChunk", file="dyadic_pyramid.py", func="compute_dyadic_downscaling", select="comp-elt:half_chunk",
+         ty="Int", result="val", noinline=True),
+    dict(name="pyrFetchFactor", file="dyadic_pyramid.py", func="compute_dyadic_downscaling",
+         select="comp-elt:chunk_fetch_factor", ty="Int", result="val", noinline=True),
+    dict(name="statsChunksPerAxis", file="scripts/scale_stats.py", func="show_scales_info",
+         select="comp-elt:size_in_chunks", ty="Int", result="val", noinline=True),
     dict(name="nextCmc", file="sharded_file_accessor.py", func="MiniShard.next_cmc", select="return",
          ty="Nat", result="val", keep=["preshift_mask"]),
 ]
@@ -215,6 +235,12 @@ FALLBACK = {
     "volUpperZ": ("(chunk_size_2 z_chunk_idx size_2 : Int)", "Int", "(min (chunk_size_2 * (z_chunk_idx + (1 : Int))) size_2)"),
     "volCountX": ("(size_0 chunk_size_0 : Int)", "Int", "(((size_0 - (1 : Int)) / chunk_size_0) + (1 : Int))"),
     "volUpperX": ("(chunk_size_0 x_chunk_idx size_0 : Int)", "Int", "(min (chunk_size_0 * (x_chunk_idx + (1 : Int))) size_0)"),
+    "cvtLowerX": ("(chunk_size_0 x_idx : Int)", "Int", "(chunk_size_0 * x_idx)"),
+    "cvtUpperX": ("(chunk_size_0 x_idx size_0 : Int)", "Int", "(min (chunk_size_0 * (x_idx + (1 : Int))) size_0)"),
+    "cvtUpperZ": ("(chunk_size_2 z_idx size_2 : Int)", "Int", "(min (chunk_size_2 * (z_idx + (1 : Int))) size_2)"),
+    "pyrHalfChunk": ("(osz f : Int)", "Int", "(osz / f)"),
+    "pyrFetchFactor": ("(nsz hc : Int)", "Int", "(nsz / hc)"),
+    "statsChunksPerAxis": ("(s cs : Int)", "Int", "(((s - (1 : Int)) / cs) + (1 : Int))"),
     "nextCmc": ("(appended preshift_bits shard_bits minishard_bits masked_bits preshift_mask : Nat)", "Nat",
                 "((((appended >>> preshift_bits) <<< ((preshift_bits + shard_bits) + minishard_bits)) + masked_bits) + "
                 "(appended &&& preshift_mask))"),
@@ -230,7 +256,7 @@ def translate_all():
             tree = _module(sp["file"])
             func = _find_func(tree, sp["func"])
             expr = _select(func, sp["select"])
-            inline = _locals(func)
+            inline = {} if sp.get("noinline") else _locals(func)
             for k in sp.get("keep", []):
                 inline.pop(k, None)
             t = Tr(sp["ty"], inline, sp.get("rename"))
